@@ -758,6 +758,8 @@ def gen_shape_program(rng, name, kf_shapes=False):
             op = r.choice(SHAPE_OPS1 if c not in (0,) else SHAPE_OPS0)
             if op.startswith(("lsh", "rsh", "ursh")) and c < 0:
                 c = 1
+            if op.startswith(("div", "mod")) and c < 0:
+                c = 2      # MIN / -1 is undefined
             d = r.choice(["t", x])
             if r.chance(1, 4) and not op.startswith(("div", "udiv", "mod", "umod", "lsh", "rsh", "ursh")):
                 ins.append((op, d, c, x))      # constant first: `0 - x` is not `x - 0`
